@@ -40,6 +40,9 @@ type c15Spec struct {
 	// GoMaxProcs > 0: the child runs with GOMAXPROCS=<n>. portbase sizes its clearance
 	// queues at package init (100*GOMAXPROCS requests); the overflow classes shrink them.
 	GoMaxProcs int `json:"gomaxprocs,omitempty"`
+	// ParkCheck: after the histories, two rounds of "all slots taken by gated functions that
+	// finish at the same moment, then a fresh microtask" (see parkCheck).
+	ParkCheck bool `json:"park_check,omitempty"`
 }
 
 type c15Hist struct {
@@ -132,6 +135,7 @@ func c15Cases(cfg vlib.Cfg) []*c15Spec {
 			sp.Hists[1].Class = "m1"
 			c15Renumber(sp)
 		}
+		sp.ParkCheck = sp.GoMaxProcs == 0 && i%4 == 1
 		// amplifiers: hooks idle / PRNG delays at the grant and conclude points
 		switch i % 3 {
 		case 1:
@@ -198,6 +202,8 @@ type c15Ev struct {
 type probeSample struct {
 	global int32
 	perMod []int32
+	// a modules.mt.recheck event lies between the probe's submission and the begin of its function
+	recheckBetween bool
 }
 
 type c15H struct {
@@ -215,6 +221,10 @@ type c15H struct {
 
 	probeArmed atomic.Pointer[chan probeSample]
 	drainMode  bool // set by an overflow history: the number of queued requests is unknown from then on, fences drain the queues instead of counting
+
+	rechecks        atomic.Int64 // modules.mt.recheck hits: the scheduler, parked because all slots were taken, was woken by its 1 s ticker
+	forceConclDelay atomic.Bool  // parkCheck: every conclusion stays 2 ms at modules.mt.conclude
+	afterShutdown   atomic.Int32 // functions submitted by the probe module's stop routine that have run
 
 	firstTimeoutT   atomic.Int64 // unix nanos of the first modules.stop.timeout hit
 	firstTimeoutMod atomic.Value // module name of it
@@ -275,8 +285,12 @@ func c15Child(dir string, raw []byte) {
 	})
 	vhook.Set("modules.mt.conclude", func(p, s string) {
 		h.concluded.Add(1)
+		if h.forceConclDelay.Load() {
+			time.Sleep(2 * time.Millisecond)
+		}
 		hs.handle(p, s)
 	})
+	vhook.Set("modules.mt.recheck", func(p, s string) { h.rechecks.Add(1) })
 	vhook.Set("modules.mt.maxdelay", func(p, s string) { h.maxdelay.Add(1) })
 	vhook.Set("modules.stop.timeout", func(p, s string) {
 		if h.timeouts.Add(1) == 1 {
@@ -290,7 +304,7 @@ func c15Child(dir string, raw []byte) {
 	for i := 0; i < sp.Mods; i++ {
 		h.mods = append(h.mods, modules.Register(fmt.Sprintf("w%d", i), nil, nil, nil))
 	}
-	h.prb = modules.Register("probe", nil, nil, nil)
+	h.prb = modules.Register("probe", nil, nil, h.prbStop)
 	modules.SetMaxConcurrentMicroTasks(sp.Limit)
 	if err := modules.Start(); err != nil {
 		h.b.Inconclusive("case %d: modules.Start failed: %v", sp.Case, err)
@@ -307,6 +321,9 @@ func c15Child(dir string, raw []byte) {
 			break
 		}
 	}
+	if ok && sp.ParkCheck {
+		ok = h.parkCheck()
+	}
 	if ok {
 		// M4 (second half): stopping the modules is not held up - neither when nothing
 		// runs any more nor when a microtask is the last thing of a module to finish
@@ -316,6 +333,7 @@ func c15Child(dir string, raw []byte) {
 		select {
 		case <-done:
 			h.judgeShutdown(fl)
+			h.afterShutdownAccounting()
 		case <-time.After(60 * time.Second):
 			h.b.Inconclusive("case %d: Shutdown did not return within 60s", sp.Case)
 		}
@@ -949,9 +967,11 @@ func (h *c15H) probe(hi int) (probeSample, bool) {
 	h.probeArmed.Store(&ch)
 	var smp probeSample
 	got := false
-	var mdAtBegin int64
+	var mdAtBegin, rcAtBegin int64
+	rc0 := h.rechecks.Load()
 	err := h.prb.RunMicroTask("probe", c15BigDelayMs*time.Millisecond, func(context.Context) error {
 		mdAtBegin = h.maxdelay.Load()
+		rcAtBegin = h.rechecks.Load()
 		select {
 		case smp = <-ch:
 			got = true
@@ -974,7 +994,162 @@ func (h *c15H) probe(hi int) (probeSample, bool) {
 		h.probeArmed.Store(nil)
 		return smp, false
 	}
+	smp.recheckBetween = rcAtBegin != rc0
 	return smp, true
+}
+
+// parkCheck (M4, "later microtasks are admitted immediately" for the interleaving in which
+// all running microtasks finish at the same moment): `limit` gated medium-priority Run*
+// microtasks take all slots - the scheduler then waits in its "all slots taken" branch -,
+// are released together and each stays 2 ms at modules.mt.conclude, i.e. between the
+// module-side and the global-side of its conclusion. When all Run* calls have returned,
+// every conclusion is complete. A fresh microtask submitted now must be admitted because
+// the scheduler was told about the free slots, not because its 1 s recheck ticker fired:
+// no modules.mt.recheck event may lie between the submission and the begin of the
+// function. On the unchanged code each wake-up of the scheduler follows the global
+// decrement of the concluding microtask, so after the last return the scheduler has either
+// re-read a count below the limit or has a wake-up pending, and a scheduler that is blocked
+// in its select is completed by that wake-up, not by a later tick. The one remaining
+// coincidence (the scheduler goroutine descheduled between reading the count and entering
+// the select, with a stale tick buffered) would have to happen in both rounds: a violation
+// is only reported when both rounds needed the ticker.
+func (h *c15H) parkCheck() bool {
+	sp := h.sp
+	needed := 0
+	const rounds = 2
+	for round := 0; round < rounds; round++ {
+		gate := make(chan struct{})
+		var begun atomic.Int32
+		var wg sync.WaitGroup
+		h.forceConclDelay.Store(true)
+		for i := 0; i < sp.Limit; i++ {
+			wg.Add(1)
+			h.submitted.Add(1)
+			h.expConcl.Add(1)
+			go func() {
+				defer wg.Done()
+				_ = h.mods[0].RunMicroTask("park", c15BigDelayMs*time.Millisecond, func(context.Context) error {
+					begun.Add(1)
+					<-gate
+					return nil
+				})
+			}()
+		}
+		for dl := time.Now().Add(20 * time.Second); int(begun.Load()) < sp.Limit; {
+			if time.Now().After(dl) {
+				close(gate)
+				wg.Wait()
+				h.forceConclDelay.Store(false)
+				h.b.Inconclusive("case %d: park check: only %d of %d slot holders admitted within 20s", sp.Case, begun.Load(), sp.Limit)
+				return false
+			}
+			time.Sleep(100 * time.Microsecond)
+		}
+		time.Sleep(300 * time.Microsecond) // let the scheduler count the last grant and park
+		close(gate)
+		wg.Wait()
+		h.forceConclDelay.Store(false)
+		for dl := time.Now().Add(30 * time.Second); h.granted.Load() != h.submitted.Load() || h.concluded.Load() != h.expConcl.Load(); {
+			if time.Now().After(dl) {
+				h.b.Inconclusive("case %d: park check: grant/conclusion counts did not settle", sp.Case)
+				return false
+			}
+			time.Sleep(100 * time.Microsecond)
+		}
+		smp, ok := h.probe(-1)
+		if !ok {
+			return false
+		}
+		h.b.Count("park_check_rounds", 1)
+		if smp.recheckBetween {
+			needed++
+		}
+		if smp.global != 0 {
+			h.b.Violation("C15:M3:global-count-nonzero:"+sign(smp.global)+":parkcheck", fmt.Sprintf("global microtask count is %d after %d slot-holding Run* microtasks had returned", smp.global, sp.Limit),
+				map[string]any{"spec": h.specNoTasks(), "global": smp.global})
+			return false
+		}
+	}
+	switch {
+	case needed == rounds:
+		h.b.Violation("C15:M4:admitted-only-by-recheck-tick", fmt.Sprintf("with all %d slots free again (every Run* call of the slot holders had returned) a fresh medium-priority microtask was admitted only after the scheduler's 1 s recheck ticker fired, in %d of %d rounds", sp.Limit, needed, rounds),
+			map[string]any{"spec": h.specNoTasks(), "limit": sp.Limit, "rounds_that_needed_the_ticker": needed})
+	case needed > 0:
+		h.b.Count("park_check_single_tick_coincidences", 1)
+	}
+	return true
+}
+
+// prbStop is the stop routine of the probe module. Shutdown has begun when it runs: it
+// submits medium/low-priority microtasks of every variant (modules do that while they
+// stop) and waits for them. Their accounting is checked after Shutdown returned.
+func (h *c15H) prbStop() error {
+	var wg sync.WaitGroup
+	big := c15BigDelayMs * time.Millisecond
+	fn := func(context.Context) error { h.afterShutdown.Add(1); wg.Done(); return nil }
+	for i := 0; i < 24; i++ {
+		wg.Add(1)
+		switch i % 6 {
+		case 0:
+			_ = h.prb.RunMicroTask("sd", big, fn)
+		case 1:
+			_ = h.prb.RunLowPriorityMicroTask("sd", big, fn)
+		case 2:
+			h.prb.StartMicroTask("sd", big, fn)
+		case 3:
+			h.prb.StartLowPriorityMicroTask("sd", big, fn)
+		case 4:
+			done := h.prb.SignalMicroTask(big)
+			_ = fn(nil)
+			done()
+			done()
+		default:
+			done := h.prb.SignalLowPriorityMicroTask(big)
+			_ = fn(nil)
+			done()
+		}
+	}
+	wg.Wait()
+	return nil
+}
+
+// afterShutdownAccounting (M3 has no "before shutdown" restriction): the microtasks the
+// probe module's stop routine submitted were admitted by the shutdown scheduler. Two
+// further microtasks are run one after the other; inside the function of the second one
+// every earlier admission has been counted (the scheduler handles one request at a
+// time), so the global count can only be too high there (a Start* goroutine that has not
+// reached its global decrement yet, the second microtask itself) - never negative.
+func (h *c15H) afterShutdownAccounting() {
+	if n := h.afterShutdown.Load(); n != 24 {
+		h.b.Violation("C15:M2:after-shutdown-executed-"+fmt.Sprint(n), fmt.Sprintf("%d of 24 microtask functions submitted by a stop routine ran", n), map[string]any{"spec": h.specNoTasks()})
+		return
+	}
+	big := c15BigDelayMs * time.Millisecond
+	_ = h.prb.RunMicroTask("post", big, func(context.Context) error { return nil })
+	var inFn int32
+	_ = h.prb.RunLowPriorityMicroTask("post", big, func(context.Context) error { inFn = modules.VerifMicroTasks(); return nil })
+	h.b.Count("after_shutdown_accounting_checks", 1)
+	h.b.Count("microtasks_admitted_after_shutdown_began", 26)
+	if inFn < 0 {
+		h.b.Violation("C15:M3:global-count-negative-after-shutdown", fmt.Sprintf("global microtask count is %d after 24 medium/low-priority microtasks submitted by a stop routine (after Shutdown had begun) had finished", inFn),
+			map[string]any{"spec": h.specNoTasks(), "global_inside_following_microtask": inFn, "counts": h.counts()})
+		return
+	}
+	for dl := time.Now().Add(10 * time.Second); ; {
+		v := modules.VerifMicroTasks()
+		_, _, pm := h.prb.VerifModuleCounts()
+		if v == 0 && pm == 0 {
+			return
+		}
+		if time.Now().After(dl) {
+			if v > 0 || pm != 0 {
+				h.b.Violation("C15:M3:count-nonzero-after-shutdown", fmt.Sprintf("10 s after Shutdown returned and every microtask had finished the global count is %d, the probe module's %d", v, pm),
+					map[string]any{"spec": h.specNoTasks(), "counts": h.counts()})
+			}
+			return
+		}
+		time.Sleep(time.Millisecond)
+	}
 }
 
 func sign(n int32) string {
@@ -1097,6 +1272,8 @@ func c15Parent(cfg vlib.Cfg) {
 		rep.Floor(rep.Counter("quiescence_fences") >= int64(cfg.N(300, 10000)), "only %d quiescence fences", rep.Counter("quiescence_fences"))
 		rep.Floor(rep.Counter("histories_tiny") > 0 && rep.Counter("maxdelay_expiries_observed") > 0, "no max-delay expiry observed in the tiny class")
 		rep.Floor(rep.Counter("run_errors_checked") > 0 && rep.Counter("run_panics_checked") > 0, "no error/panic hand-back checked")
+		rep.Floor(rep.Counter("park_check_rounds") >= int64(cfg.N(40, 1000)), "only %d park-check rounds", rep.Counter("park_check_rounds"))
+		rep.Floor(rep.Counter("after_shutdown_accounting_checks") >= int64(cfg.N(100, 3000)), "only %d after-shutdown accounting checks", rep.Counter("after_shutdown_accounting_checks"))
 		rep.Floor(rep.Counter("histories_overflow-low") > 0 && rep.Counter("histories_overflow-med") > 0 && rep.Counter("overflow_histories_with_queue_full_expiries") > 0,
 			"overflow classes not exercised (low=%d med=%d with queue-full expiries=%d)", rep.Counter("histories_overflow-low"), rep.Counter("histories_overflow-med"), rep.Counter("overflow_histories_with_queue_full_expiries"))
 	}
